@@ -121,10 +121,9 @@ func NewMuxer(ctx context.Context, w io.Writer, opts ...func(*Muxer)) *Muxer {
 // if es.ElementaryPID is zero, it will be generated automatically
 func (m *Muxer) AddElementaryStream(es PMTElementaryStream) error {
 	if es.ElementaryPID != 0 {
-		for _, oes := range m.pmt.ElementaryStreams {
-			if oes.ElementaryPID == es.ElementaryPID {
-				return ErrPIDAlreadyExists
-			}
+		// The PID must be used neither by another elementary stream nor by the PMT
+		if m.isPIDTaken(es.ElementaryPID) {
+			return ErrPIDAlreadyExists
 		}
 	} else {
 		// Pick the next PID that is neither reserved nor already in use
